@@ -430,7 +430,14 @@ struct Executor {
     stall_timer: Option<Pin<Box<tokio::time::Sleep>>>,
     /// the simulated processor is busy until this timer fires (fault "processing-takes-time")
     cpu_busy: Option<Pin<Box<tokio::time::Sleep>>>,
+    /// wall-clock start of the run (for the work budget)
+    wall_start: std::time::Instant,
 }
+
+/// Work budget of one run in wall-clock time. Runs take milliseconds, the heaviest a second or two; a
+/// run that is still computing after this long is doing work out of all proportion to its input
+/// (thousands of times the usual). The same seed burns the same time on replay.
+pub const RUN_WALL_BUDGET_S: u64 = 60;
 
 thread_local! {
     static CPU_COST: std::cell::Cell<(u32, u64)> = std::cell::Cell::new((0, 0));
@@ -665,6 +672,19 @@ impl Future for Executor {
                 return Poll::Pending;
             }
             this.slots[id].stalled_until = None;
+        }
+        if with_state(|s| s.steps) & 0xff == 0 && this.wall_start.elapsed().as_secs() >= RUN_WALL_BUDGET_S {
+            violation(
+                "work-out-of-proportion",
+                format!(
+                    "the run has been computing for {} s of wall time ({} scheduler steps, {} virtual ms): thousands of times what runs of this kind take; busiest tasks {:?}",
+                    RUN_WALL_BUDGET_S,
+                    with_state(|s| s.steps),
+                    now_ms(),
+                    busiest()
+                ),
+            );
+            return Poll::Ready(());
         }
         let steps = with_state(|s| {
             s.steps += 1;
@@ -954,6 +974,7 @@ where
                 stalled: Vec::new(),
                 stall_timer: None,
                 cpu_busy: None,
+                wall_start: std::time::Instant::now(),
             };
             spawn("main", main());
             ex.absorb_spawns();
